@@ -172,7 +172,11 @@ class Ghost:
             if isinstance(v, dict) and "real" in v:
                 v = float(Fraction(v["real"]))
             if v is None:
-                v = {"int": 0, "real": 0.0, "bool": False, "str": ""}.get(kind, 0)
+                v = {"int": 0, "real": 0.0, "bool": False, "str": ""}.get(kind, [] if kind.startswith("seq:") else {} if kind.startswith("map:") else 0)
+            if kind.startswith("seq:") and isinstance(v, list):
+                v = [int(x) if kind == "seq:int" else x for x in v]
+            if isinstance(v, dict) and "$map" in v:
+                v = {k: x for k, x in v["$map"]}
             self.vals[n] = float(v) if kind == "real" else v
 
     def __getattr__(self, n):
@@ -242,7 +246,7 @@ def run_job(reg, job, hooks):
         old = {"__old_" + k: (snap(v) if k == "self" and not c.is_init else cdeep(v))
                for k, v in env.items()}
         for g, gv in ghost.vals.items():
-            old["__old_" + g] = gv
+            old["__old_" + g] = cdeep(gv)
         if hooks.get("snapshot"):
             old.update(hooks["snapshot"](mod, ghost))
         # the concrete pre-state must satisfy the class invariant and the preconditions
@@ -270,6 +274,9 @@ def run_job(reg, job, hooks):
         except Exception as ex:  # noqa
             raised = type(ex).__name__
             raised_obj = ex
+            listed = list(c.raises) + list(c.may_raise_other)
+            if raised not in listed and "Exception" in listed:
+                raised = "Exception"   # the contract's generic class stands for any other exception
         failed, checked = [], []
 
         def cur_env():
@@ -329,6 +336,8 @@ def run_job(reg, job, hooks):
                     if f not in obj.__dict__ or not SPEC_ENV["same"](o.__dict__[f], obj.__dict__[f]):
                         failed.append({"clause": f"frame/self.{f}"})
             for g in ghost.vals:
+                if g.startswith("_") or g in hooks.get("prophecy", ()):
+                    continue
                 if f"ghost.{g}" not in c.modifies:
                     checked.append(f"frame/ghost.{g}")
                     if not approx_eq(getattr(ghost, g), old["__old_" + g]):
@@ -350,17 +359,19 @@ def run_job(reg, job, hooks):
                         if f not in obj.__dict__ or not SPEC_ENV["same"](o.__dict__[f], obj.__dict__[f]):
                             failed.append({"clause": f"xpost/{raised}/atomic/self.{f}"})
                 for g in ghost.vals:
+                    if g.startswith("_") or g in hooks.get("prophecy", ()):
+                        continue
                     checked.append(f"xpost/{raised}/atomic/ghost.{g}")
                     if not approx_eq(getattr(ghost, g), old["__old_" + g]):
                         failed.append({"clause": f"xpost/{raised}/atomic/ghost.{g}"})
                 if hooks.get("frame"):
                     hooks["frame"](mod, c, old, ghost, failed, checked, f"xpost/{raised}/atomic", everything=True)
             for i, src in enumerate(c.on_raise):
-                check(f"xpost/{raised}/on_raise/{i + 1}", src)
+                check(f"xpost/{raised}/on_raise/{i + 1}", src, dict(cur_env(), raised="Exception" if raised not in ("ValueError", "RuntimeError", "TypeError", "SyntaxError", "OSError") and "Exception" in c.may_raise_other + list(c.raises) else raised))
             if obj is not None and c.public and not c.is_init and not c.atomic and cd is not None:
                 for i, src in enumerate(cd.inv):
                     check(f"xpost/{raised}/inv/{i + 1}", src)
-        observed = {"raised": raised, "result": repr(result), "ghost": {k: repr(v) for k, v in ghost.vals.items()}}
+        observed = {"raised": raised, "result": repr(result)[:300], "ghost": {k: repr(v)[:300] for k, v in ghost.vals.items() if not k.startswith("_")}}
         if obj is not None:
             observed["self"] = {k: repr(v) for k, v in obj.__dict__.items()}
         if hooks.get("observe"):
@@ -368,6 +379,8 @@ def run_job(reg, job, hooks):
         return {"id": job.get("id"), "raised": raised, "failed": failed, "checked": checked, "observed": observed}
     finally:
         _time.sleep = real_sleep
+        if hooks.get("teardown"):
+            hooks["teardown"](ghost)
 
 
 def pre_ok(reg, job):
